@@ -283,8 +283,8 @@ def scan_shared(infos, raw):
     """one record per shared-state / ambient-input construct, anywhere in the file (nested inline modules,
     feature-gated items and fn-local statics included: the scan is purely lexical)"""
     SHARED = [
-        ('static_mut', r"\bstatic\s+mut\b"),
-        ('static', r"\bstatic\s+(?!mut\b)\w+\s*:"),
+        ('static_mut', r"(?<!')\bstatic\s+mut\b"),
+        ('static', r"(?<!')\bstatic\s+(?!mut\b)\w+\s*:"),
         ('thread_local', r"\bthread_local\s*!"),
         ('Cell', r"\b(?:Cell|UnsafeCell|OnceCell|LazyCell)\s*(?:<|::)"),
         ('RefCell', r"\bRefCell\s*(?:<|::)"),
@@ -302,6 +302,12 @@ def scan_shared(infos, raw):
         ('random', r"\bRandomState\b|\bgetrandom\b|\brand::|\bfastrand\b|\bthread_rng\b"),
         ('read_dir', r"\bread_dir\s*\("),
         ('process', r"\bstd::process\b|\bprocess::(?:exit|abort|id)\b"),
+        # round 4: more ways for state to outlive a call / for the environment to leak in
+        ('fs', r"\bstd::fs\b|\bfs::(?:read|read_to_string|write|metadata|canonicalize)\b|\bFile::(?:open|create)\b"),
+        ('leak', r"\bBox::leak\b|\bmem::forget\b|\bManuallyDrop\b|\bWeak\s*(?:<|::)"),
+        ('thread', r"\bthread::current\b|\bThreadId\b|\bavailable_parallelism\b|\bthread::(?:scope|Builder)\b"),
+        ('uninit', r"\bMaybeUninit\b|\bset_len\s*\(|\bmem::(?:uninitialized|zeroed)\b"),
+        ('alloc', r"\bGlobalAlloc\b|\bglobal_allocator\b|\bstd::alloc\b"),
     ]
     shared_sites = []
     for fi in infos:
@@ -318,7 +324,45 @@ def scan_shared(infos, raw):
                     if re.search(r"Cell|Mutex|RwLock|Atomic|Lazy|Once|\bmut\b", decl):
                         k = 'static_interior'
                 shared_sites.append((fi.rel, f[0] if f else '', k, text, fi.line(m.start())))
+        # addresses printed through a format string: `{:p}` / `{name:p}` inside a string literal that is code (the
+        # stripped text has a blanked literal at the same offsets; a comment is blanked without the quotes)
+        for m in re.finditer(r"\{\w*:#?p\}", raw[fi.rel]):
+            a = m.start()
+            ql = fi.code.rfind('"', 0, a)
+            qr = fi.code.find('"', a)
+            if ql < 0 or qr < 0 or fi.code[ql + 1:qr].strip() != '' or '\n' in fi.code[ql:qr] and not raw[fi.rel][ql] == '"':
+                continue
+            if raw[fi.rel][ql] != '"' or fi.code[a] != ' ':
+                continue
+            f = fi.enclosing_fn(a)
+            ls = raw[fi.rel].rfind('\n', 0, a) + 1
+            le = raw[fi.rel].find('\n', a)
+            shared_sites.append((fi.rel, f[0] if f else '', 'fmt_ptr', raw[fi.rel][ls:le if le >= 0 else None], fi.line(a)))
     return shared_sites
+
+
+ORDER_KINDS = [
+    ('sort_unstable', r"\.\s*(?:sort_unstable(?:_by(?:_key)?)?|select_nth_unstable(?:_by(?:_key)?)?)\s*\("),
+    ('sort_stable', r"\.\s*(?:sort|sort_by|sort_by_key|sort_by_cached_key)\s*\("),
+    ('dedup', r"\.\s*dedup(?:_by(?:_key)?)?\s*\("),
+    ('binary_search', r"\.\s*binary_search(?:_by(?:_key)?)?\s*\("),
+    ('heap', r"\bBinaryHeap\b"),
+    ('par', r"\bpar_(?:iter|sort\w*|chunks\w*|bridge)\b"),
+]
+
+
+def scan_order(infos, raw):
+    """every place where the order of a sequence is (re)established: sorts (stable / unstable), dedup, heaps, parallel
+    iterators.  Hash-container iteration is in c06_hash_sites."""
+    out = []
+    for fi in infos:
+        for kind, pat in ORDER_KINDS:
+            for m in re.finditer(pat, fi.code):
+                f = fi.enclosing_fn(m.start())
+                ls = fi.code.rfind('\n', 0, m.start()) + 1
+                le = fi.code.find('\n', m.start())
+                out.append((fi.rel, f[0] if f else '', kind, raw[fi.rel][ls:le if le >= 0 else None], fi.line(m.start())))
+    return out
 
 
 SELFTEST_SRC = """
@@ -333,6 +377,10 @@ mod outer {
             static COUNTER: std::sync::atomic::AtomicUsize = std::sync::atomic::AtomicUsize::new(0);
             static ONCE: std::sync::OnceLock<u32> = std::sync::OnceLock::new();
             let s = "static NOT_CODE: Mutex<u8>";
+            // not code: {:p}
+            let a = format!("{:p} {}", &s, 1);
+            let l: &'static mut u8 = Box::leak(Box::new(0));
+            v.sort_unstable_by_key(|x| x.0);
             COUNTER.fetch_add(1, std::sync::atomic::Ordering::Relaxed)
         }
         static TABLE: &[u8] = b"ok";
@@ -349,7 +397,11 @@ def scanner_selftest():
     fi = index_file('selftest.rs', code)
     sites = scan_shared([fi], {'selftest.rs': SELFTEST_SRC})
     kinds = sorted(k for _, _, k, _, _ in sites)
-    want = {'static_interior': 5, 'static': 1, 'thread_local': 1, 'Mutex': 2, 'RwLock': 2, 'Atomic': 2, 'Lazy': 2, 'Cell': 2}
+    want = {'static_interior': 5, 'static': 1, 'thread_local': 1, 'Mutex': 2, 'RwLock': 2, 'Atomic': 2, 'Lazy': 2, 'Cell': 2,
+            'fmt_ptr': 1, 'leak': 1}
+    order = scan_order([fi], {'selftest.rs': SELFTEST_SRC})
+    if [k for _, _, k, _, _ in order] != ['sort_unstable']:
+        return False, {'order': len(order)}
     got = {}
     for k in kinds:
         got[k] = got.get(k, 0) + 1
@@ -379,6 +431,69 @@ def lib_files(api):
 
 
 BIN_FILES = ('crates/usvg/src/main.rs', 'crates/resvg/src/main.rs')
+
+# third-party crates whose ORDER reaches the output: simplecss (CSS rules sorted by specificity, applied in list order by
+# usvg's parse.rs) and fontdb (faces() / query() order is what the fallback selector and the family match walk through)
+DEP_CRATES = ('simplecss', 'fontdb')
+DEP_STRUCTS = {'fontdb': ('Database',), 'simplecss': ('StyleSheet',)}
+
+
+def scan_deps(api):
+    """shared-state + order sites of the pinned (Cargo.lock) versions of DEP_CRATES, read from the offline cargo registry;
+    plus the field types of the containers whose iteration order usvg consumes"""
+    import glob
+    lock = api.rd('Cargo.lock')
+    sites, fields, versions = [], [], []
+    for crate in DEP_CRATES:
+        m = re.search(r'name = "%s"\s*\nversion = "([^"]+)"' % re.escape(crate), lock)
+        if not m:
+            raise api.Unsupported("%s is not in Cargo.lock" % crate)
+        ver = m.group(1)
+        dirs = sorted(glob.glob(os.path.expanduser('~/.cargo/registry/src/*/%s-%s' % (crate, ver))))
+        if not dirs:
+            raise api.Unsupported("source of %s-%s not found in the cargo registry" % (crate, ver))
+        versions.append((crate, ver))
+        infos, raw = [], {}
+        for d, _, fs in os.walk(os.path.join(dirs[0], 'src')):
+            for f in sorted(fs):
+                if f.endswith('.rs'):
+                    rel = '%s/%s' % (crate, os.path.relpath(os.path.join(d, f), dirs[0]))
+                    raw[rel] = open(os.path.join(d, f), encoding='utf-8', errors='replace').read()
+                    infos.append(index_file(rel, strip_code(raw[rel])))
+        if not infos:
+            raise api.Unsupported("no sources in %s" % dirs[0])
+        # test modules of the dependency are not part of the build
+        def in_tests(fi, pos):
+            return any(t == 'tests' and a <= pos <= b for t, a, b in getattr(fi, 'mods', []))
+        for fi in infos:
+            fi.mods = []
+            for mm in re.finditer(r"#\[cfg\(test\)\]\s*mod\s+(\w+)\s*\{", fi.code):
+                fi.mods.append(('tests', mm.start(), match_brace(fi.code, mm.end() - 1)))
+        for rec in scan_shared(infos, raw) + scan_order(infos, raw):
+            fi = [x for x in infos if x.rel == rec[0]][0]
+            pos = fi.line_starts[rec[4] - 1]
+            if in_tests(fi, pos):
+                continue
+            sites.append(rec)
+        for fi in infos:
+            for line_no, text in enumerate(fi.code.split('\n')):
+                if re.search(r"\b(HashMap|HashSet)\b", text) and not in_tests(fi, fi.line_starts[line_no]):
+                    f = fi.enclosing_fn(fi.line_starts[line_no])
+                    sites.append((fi.rel, f[0] if f else '', 'hash_mention', raw[fi.rel].split('\n')[line_no].strip(), line_no + 1))
+            for sname in DEP_STRUCTS.get(crate, ()):
+                sm = re.search(r"\bstruct\s+%s\s*(?:<[^{;(]*>)?\s*\{" % sname, fi.code)
+                if not sm:
+                    continue
+                body = fi.code[sm.end():match_brace(fi.code, sm.end() - 1)]
+                body = re.sub(r"#\[[^\]]*\]", ' ', body)
+                for part in split_top(body):
+                    pm = re.match(r"\s*(?:pub(?:\([^)]*\))?\s+)?(\w+)\s*:\s*(.+)$", part.strip(), re.S)
+                    if pm:
+                        fields.append((crate + '::' + sname, pm.group(1), re.sub(r"\s+", ' ', pm.group(2).strip())))
+        for sname in DEP_STRUCTS.get(crate, ()):
+            if not any(a == crate + '::' + sname for a, _, _ in fields):
+                raise api.Unsupported("struct %s not found in %s-%s" % (sname, crate, ver))
+    return sites, fields, versions
 
 
 def _generate(api, mode='lib'):
@@ -579,6 +694,20 @@ def _generate(api, mode='lib'):
                     continue   # counted by rule 2
                 if re.match(r"\s*(,|\))", after) and re.search(r"[\(,]\s*(&\s*(mut\s+)?)?$", before):
                     kind = 'pass_arg'       # handed to a callee whose parameter is typed (and scanned)
+                    # ... unless the callee is a macro (format!("{:?}", map) prints the physical order): fail closed
+                    depth = 0
+                    q = m.start() - 1
+                    while q >= 0:
+                        ch = seg[q]
+                        if ch in ')]}':
+                            depth += 1
+                        elif ch in '([{':
+                            if depth == 0:
+                                break
+                            depth -= 1
+                        q -= 1
+                    if q > 0 and re.search(r"!\s*$", seg[:q]):
+                        kind = 'macro_arg'
                 elif re.match(r"\s*;", after) and re.search(r"=\s*$", before):
                     kind = 'move_assign'    # moved into a (typed, scanned) field or binding
                 elif re.match(r"\s*=[^=]", after):
@@ -595,6 +724,7 @@ def _generate(api, mode='lib'):
             ctor_sites.append((fi.rel, f[0] if f else '', m.group(1), m.group(2), fi.line(m.start())))
 
     shared_sites = scan_shared(infos, raw)
+    order_sites = scan_order(infos, raw)
 
     # ---------------------------------------------------------------- hashers
     hasher_sites = []
@@ -659,6 +789,9 @@ def _generate(api, mode='lib'):
         emit_b('c06_bin_hash_mentions', 'ssite',
                ["{| ss_file := %s; ss_fn := %s; ss_kind := %s; ss_text := %s; ss_line := %d |}"
                 % (coq_str(a_), coq_str(''), coq_str(k_), coq_str(t_[:160]), ln) for a_, k_, t_, ln in mentions])
+        emit_b('c06_bin_order_sites', 'ssite',
+               ["{| ss_file := %s; ss_fn := %s; ss_kind := %s; ss_text := %s; ss_line := %d |}"
+                % (coq_str(a_), coq_str(b_), coq_str(c_), coq_str(d_[:160]), ln) for a_, b_, c_, d_, ln in order_sites])
         api.write_gen('C06BinSites.v', "\n".join(Lb))
         api.ok('tables', 'c06_bin_sites', hash_sites=len(hash_sites), shared_sites=len(shared_sites), files=len(infos))
         return
@@ -759,6 +892,16 @@ def _generate(api, mode='lib'):
     emit_list('c06_shared_sites', 'ssite',
               ["{| ss_file := %s; ss_fn := %s; ss_kind := %s; ss_text := %s; ss_line := %d |}"
                % (coq_str(a), coq_str(b), coq_str(c), coq_str(d[:160]), ln) for a, b, c, d, ln in shared_sites])
+    emit_list('c06_order_sites', 'ssite',
+              ["{| ss_file := %s; ss_fn := %s; ss_kind := %s; ss_text := %s; ss_line := %d |}"
+               % (coq_str(a), coq_str(b), coq_str(c), coq_str(d[:160]), ln) for a, b, c, d, ln in order_sites])
+    dep_sites, dep_fields, dep_versions = scan_deps(api)
+    emit_list('c06_dep_versions', '(string * string)', ["(%s, %s)" % (coq_str(a), coq_str(b)) for a, b in dep_versions])
+    emit_list('c06_dep_sites', 'ssite',
+              ["{| ss_file := %s; ss_fn := %s; ss_kind := %s; ss_text := %s; ss_line := %d |}"
+               % (coq_str(a), coq_str(b), coq_str(c), coq_str(d[:160]), ln) for a, b, c, d, ln in dep_sites])
+    emit_list('c06_dep_fields', '(string * (string * string))',
+              ["(%s, (%s, %s))" % (coq_str(a), coq_str(b), coq_str(c)) for a, b, c in dep_fields])
     emit_list('c06_hasher_sites', 'hasher_site',
               ["{| hh_file := %s; hh_fn := %s; hh_type := %s; hh_method := %s; hh_line := %d |}"
                % (coq_str(a), coq_str(b), coq_str(c), coq_str(d), ln) for a, b, c, d, ln in hasher_sites])
